@@ -3,21 +3,23 @@ import Infretis.Lemmas.RepexC03Load
 /-!
 # C07 — the counting invariant behind the restart arithmetic
 
-`set_rgen()` restores the spawn counter as `cstep + len(locked)`.  That is the number of jobs issued
-so far exactly when `locked` lists the jobs in flight, one record each:
-`jobs issued = completed steps + jobs in flight`.
+`set_rgen()` restores the spawn counter as `cstep + len(locked)`.  That is the number of distinct
+jobs issued so far exactly when `locked` lists the jobs in flight, one record each:
+`distinct jobs issued = completed steps + jobs in flight`.
 
-Here: in every history from a state satisfying C03's `Init` with an exact record
-(`CountInv`: `locked` lists the path numbers of the jobs in flight in order, and
-`spawned = cstep + #locked`), the record stays exact — at every instant between events and at the
-instant `treat_output` writes the restart file (`midState`).  The delicate part is the
-pop-while-iterating loop of `treat_output`, which removes exactly the completed job's record because
-path numbers of jobs in flight are pairwise distinct (C03).
+`NInv y` (for states with nothing left to re-issue): C03's slot invariant `Core` for the jobs in
+flight, `locked` lists exactly the (ensembles, path numbers) of the jobs in flight in order,
+`lockedOrd` lists their ordinals (each job carries the streams of its recorded ordinal), the
+ordinals are pairwise distinct and below the counter, and `spawned = cstep + #locked`.
+It is kept by every event, at every instant between events and at the instant `treat_output`
+writes the restart file (`midState`).  The delicate part is the pop-while-iterating loop of
+`treat_output`, which removes exactly the completed job's record (and ordinal) because path numbers
+of jobs in flight are pairwise distinct (C03).
 -/
 namespace Infretis.Repex
 open Infretis.Perm
 
-/-! ### popLocked -/
+/-! ### popLocked / popLockedOrd -/
 
 theorem popLocked_noop (pn : Nat) : ∀ (fuel idx : Nat) (L : List (List Int × List Nat)),
     (∀ e ∈ L, pn ∉ e.2) → popLocked pn fuel idx L = L := by
@@ -76,32 +78,94 @@ theorem popLocked_erase (pn : Nat) (L : List (List Int × List Nat)) (k : Nat)
       simp only [Bool.false_eq_true, ↓reduceIte]
       exact ih (idx + 1) (by omega) (by omega)
 
-theorem popAll_noop : ∀ (ps : List Picked) (L : List (List Int × List Nat)),
-    (∀ p ∈ ps, ∀ e ∈ L, p.pn ∉ e.2) → popAll ps L = L := by
+theorem popLockedOrd_noop (pn : Nat) : ∀ (fuel idx : Nat) (L : List (List Int × List Nat))
+    (O : List Nat), (∀ e ∈ L, pn ∉ e.2) → popLockedOrd pn fuel idx L O = O := by
+  intro fuel
+  induction fuel with
+  | zero => intro idx L O _; rfl
+  | succ fuel ih =>
+    intro idx L O h
+    unfold popLockedOrd
+    split
+    · rfl
+    · rename_i entry he
+      have hm := h entry (List.mem_of_getElem? he)
+      have hc : entry.2.contains pn = false := by
+        cases hcc : entry.2.contains pn with
+        | false => rfl
+        | true => exact absurd (List.contains_iff_mem.mp hcc) hm
+      rw [hc]
+      exact ih (idx + 1) L O h
+
+theorem popLockedOrd_erase (pn : Nat) (L : List (List Int × List Nat)) (O : List Nat) (k : Nat)
+    (e : List Int × List Nat) (hk : L[k]? = some e) (hin : pn ∈ e.2)
+    (huniq : ∀ i e', L[i]? = some e' → pn ∈ e'.2 → i = k) :
+    ∀ (fuel idx : Nat), idx ≤ k → k - idx < fuel → popLockedOrd pn fuel idx L O = O.eraseIdx k := by
+  intro fuel
+  induction fuel with
+  | zero => intro idx _ h; omega
+  | succ fuel ih =>
+    intro idx hle hf
+    unfold popLockedOrd
+    have hklt : k < L.length := getElem?_lt_of_some _ _ _ hk
+    have hidx : idx < L.length := by omega
+    rw [List.getElem?_eq_getElem hidx]
+    simp only []
+    by_cases hik : idx = k
+    · subst hik
+      have he : L[idx] = e := by
+        rw [List.getElem?_eq_getElem hidx] at hk
+        simpa using hk
+      rw [he]
+      have hc : e.2.contains pn = true := List.contains_iff_mem.mpr hin
+      rw [hc]
+      simp only [↓reduceIte]
+      apply popLockedOrd_noop
+      intro e' he' hpn
+      obtain ⟨i, hne, hi⟩ := List.mem_eraseIdx_iff_getElem?.mp he'
+      exact hne (huniq i e' hi hpn)
+    · have hc : (L[idx]).2.contains pn = false := by
+        cases hcc : (L[idx]).2.contains pn with
+        | false => rfl
+        | true =>
+          exfalso
+          apply hik
+          exact huniq idx L[idx] (List.getElem?_eq_getElem hidx) (List.contains_iff_mem.mp hcc)
+      rw [hc]
+      simp only [Bool.false_eq_true, ↓reduceIte]
+      exact ih (idx + 1) (by omega) (by omega)
+
+theorem popAll_noop : ∀ (ps : List Picked) (L : List (List Int × List Nat)) (O : List Nat),
+    (∀ p ∈ ps, ∀ e ∈ L, p.pn ∉ e.2) → popAll ps (L, O) = (L, O) := by
   intro ps
   induction ps with
-  | nil => intro L _; rfl
+  | nil => intro L O _; rfl
   | cons p ps ih =>
-    intro L h
+    intro L O h
     unfold popAll
     rw [List.foldl_cons]
-    rw [popLocked_noop p.pn _ _ L (h p (List.mem_cons_self ..))]
-    exact ih L (fun q hq => h q (List.mem_cons_of_mem _ hq))
+    simp only []
+    rw [popLocked_noop p.pn _ _ L (h p (List.mem_cons_self ..)),
+      popLockedOrd_noop p.pn _ _ L O (h p (List.mem_cons_self ..))]
+    exact ih L O (fun q hq => h q (List.mem_cons_of_mem _ hq))
 
-/-- the pops of a completed job remove exactly its own record when its path numbers occur in no
-    other record -/
-theorem popAll_erase (ps : List Picked) (hne : ps ≠ []) (L : List (List Int × List Nat)) (k : Nat)
-    (e : List Int × List Nat) (hk : L[k]? = some e) (he : e.2 = ps.map (·.pn))
+/-- the pops of a completed job remove exactly its own record and its ordinal when its path numbers
+    occur in no other record -/
+theorem popAll_erase (ps : List Picked) (hne : ps ≠ []) (L : List (List Int × List Nat)) (O : List Nat)
+    (k : Nat) (e : List Int × List Nat) (hk : L[k]? = some e) (he : e.2 = ps.map (·.pn))
     (huniq : ∀ p ∈ ps, ∀ i e', L[i]? = some e' → p.pn ∈ e'.2 → i = k) :
-    popAll ps L = L.eraseIdx k := by
+    popAll ps (L, O) = (L.eraseIdx k, O.eraseIdx k) := by
   cases ps with
   | nil => exact absurd rfl hne
   | cons p rest =>
     unfold popAll
     rw [List.foldl_cons]
+    simp only []
     have hin : p.pn ∈ e.2 := by rw [he]; simp
     have hklt : k < L.length := getElem?_lt_of_some _ _ _ hk
     rw [popLocked_erase p.pn L k e hk hin (huniq p (List.mem_cons_self ..)) L.length 0
+      (Nat.zero_le _) (by omega),
+      popLockedOrd_erase p.pn L O k e hk hin (huniq p (List.mem_cons_self ..)) L.length 0
       (Nat.zero_le _) (by omega)]
     apply popAll_noop
     intro q hq e' he' hpn
@@ -152,23 +216,49 @@ theorem flatten_nodup_unique {α : Type} : ∀ (LL : List (List α)) (i k : Nat)
         simp only [List.getElem?_cons_succ] at hi hk
         rw [ih i k a b x hnr hi hk ha hb]
 
+theorem zip_eraseIdx {α β : Type} : ∀ (l1 : List α) (l2 : List β) (k : Nat),
+    (l1.eraseIdx k).zip (l2.eraseIdx k) = (l1.zip l2).eraseIdx k := by
+  intro l1
+  induction l1 with
+  | nil => intro l2 k; simp
+  | cons a l1 ih =>
+    intro l2 k
+    cases l2 with
+    | nil => cases k <;> simp
+    | cons b l2 =>
+      cases k with
+      | zero => simp
+      | succ k => simp [ih l2 k]
+
 /-! ### the invariant -/
 
 /-- path numbers handed to a job -/
 def jobPns (j : Job) : List Nat := j.picked.map (·.pn)
 
-/-- the in-flight record is exact: one record per job in flight, in order, with the job's path
-    numbers; and the spawn counter equals completed steps + jobs in flight -/
-structure CountInv (y : Sys) : Prop where
-  lockedPns : y.s.locked.map (·.2) = y.jobs.map jobPns
+/-- the `locked` record of a job: ensemble numbers and path numbers -/
+def jobRec (j : Job) : List Int × List Nat := (j.picked.map (·.ens), j.picked.map (·.pn))
+
+/-- shape of an `md_items` in flight: one ensemble, or exactly `[0-]` and `[0+]` -/
+structure JobShape (j : Job) : Prop where
+  shape : j.picked.length = 1 ∨ j.picked.map (·.ens) = [-1, 0]
+  ensGe : ∀ p ∈ j.picked, -1 ≤ p.ens
+
+/-- the invariant of a sampler with nothing left to re-issue -/
+structure NInv (y : Sys) : Prop where
+  core : Core y.s (held y.jobs) y.s.trajNum
+  shape : ∀ j ∈ y.jobs, JobShape j
+  recd : y.s.locked = y.jobs.map jobRec
+  ordLen : y.s.lockedOrd.length = y.jobs.length
+  ordStreams : ∀ jo ∈ y.jobs.zip y.s.lockedOrd, StreamsAt y.s.entropy jo.2 jo.1.picked
   count : y.s.spawned = y.s.cstep + y.s.locked.length
+  ordLt : ∀ o ∈ y.s.lockedOrd, o < y.s.spawned
+  ordNodup : y.s.lockedOrd.Nodup
 
-theorem CountInv.len {y : Sys} (h : CountInv y) : y.s.locked.length = y.jobs.length := by
-  have := congrArg List.length h.lockedPns
-  simpa using this
+theorem NInv.len {y : Sys} (h : NInv y) : y.s.locked.length = y.jobs.length := by
+  rw [h.recd, List.length_map]
 
-theorem inflight_pns_nodup {y : Sys} (hi : Inv y) : (y.jobs.map jobPns).flatten.Nodup := by
-  have hc := hi.core
+theorem inflight_pns_nodup {s : St} {jobs : List Job} {tn : Nat} (hc : Core s (held jobs) tn) :
+    (jobs.map jobPns).flatten.Nodup := by
   have hn := hc.nodup
   have e : ∀ jobs : List Job, (jobs.map jobPns).flatten = (held jobs).map Prod.snd := by
     intro jobs
@@ -189,111 +279,213 @@ theorem inflight_pns_nodup {y : Sys} (hi : Inv y) : (y.jobs.map jobPns).flatten.
   obtain ⟨h3, h4, _⟩ := hc.heldOk e2 p1 hz
   exact hc.inj e1 e2 p1 h1 h3 h2 h4
 
+theorem initiate_coreEq (s : St) : CoreEq s (initiate s).1 ∧ (initiate s).1.trajNum = s.trajNum := by
+  rcases initiate_cases s with ⟨h, _⟩ | ⟨ti, _, h⟩
+  · rw [h]; exact ⟨CoreEq.refl s, rfl⟩
+  · rw [h]; exact ⟨⟨rfl, rfl, rfl, rfl, rfl⟩, rfl⟩
+
+/-- C03's slot invariant at the instant `treat_output` writes the restart file -/
+theorem midState_core {y : Sys} {k : Nat} {status : Status} {newW : List (List Rat)} {s2 : St}
+    (hc : Core y.s (held y.jobs) y.s.trajNum) (h : midState y k status newW = .ok s2) :
+    Core s2 (held (y.jobs.eraseIdx k)) s2.trajNum := by
+  unfold midState at h
+  simp only [] at h
+  split at h
+  · exact absurd h (by simp)
+  rename_i job hjob
+  split at h
+  · exact absurd h (by simp)
+  rename_i s2' pns it htreat
+  simp only [Except.ok.injEq] at h
+  subst h
+  have hperm := held_perm_erase y.jobs k job hjob
+  have hc1 : Core { y.s with cstep := y.s.cstep + 1 } (heldJob job ++ held (y.jobs.eraseIdx k))
+      y.s.trajNum :=
+    (hc.congr (s' := { y.s with cstep := y.s.cstep + 1 }) ⟨rfl, rfl, rfl, rfl, rfl⟩).perm hperm
+  exact (treatOutput_core job status newW _ pns it hc1 htreat).1
+
+/-- the invariant without the jobs list's last word: what holds of the state at the write of the
+    restart file, for the jobs still in flight -/
+structure MidInv (s2 : St) (jobs : List Job) : Prop where
+  core : Core s2 (held jobs) s2.trajNum
+  shape : ∀ j ∈ jobs, JobShape j
+  recd : s2.locked = jobs.map jobRec
+  ordLen : s2.lockedOrd.length = jobs.length
+  ordStreams : ∀ jo ∈ jobs.zip s2.lockedOrd, StreamsAt s2.entropy jo.2 jo.1.picked
+  count : s2.spawned = s2.cstep + s2.locked.length
+  ordLt : ∀ o ∈ s2.lockedOrd, o < s2.spawned
+  ordNodup : s2.lockedOrd.Nodup
+
+theorem NInv.mid {y : Sys} (h : NInv y) : MidInv y.s y.jobs :=
+  ⟨h.core, h.shape, h.recd, h.ordLen, h.ordStreams, h.count, h.ordLt, h.ordNodup⟩
+
+theorem MidInv.ninv {s : St} {jobs : List Job} (h : MidInv s jobs) : NInv { s := s, jobs := jobs } :=
+  ⟨h.core, h.shape, h.recd, h.ordLen, h.ordStreams, h.count, h.ordLt, h.ordNodup⟩
+
 /-- **the restart file is written from an exact record**: when job `k` completes, `treat_output`
-    removes exactly that job's record; at that instant `spawned = cstep + #locked` again. -/
-theorem midState_count {y : Sys} {k : Nat} {status : Status} {newW : List (List Rat)} {s2 : St}
-    (hi : Inv y) (hc : CountInv y) (h : midState y k status newW = .ok s2) :
-    s2.locked = y.s.locked.eraseIdx k ∧ s2.spawned = s2.cstep + s2.locked.length ∧
-      s2.seed = y.s.seed ∧ s2.entropy = y.s.entropy ∧ s2.spawned = y.s.spawned ∧
-      s2.locked0 = y.s.locked0 := by
-  obtain ⟨job, hjob, h1, h2, h3, h4, h5, _, h7⟩ := midState_spec h
+    removes exactly that job's record and ordinal; the invariant holds for the remaining jobs. -/
+theorem midState_inv {y : Sys} {k : Nat} {status : Status} {newW : List (List Rat)} {s2 : St}
+    (hi : NInv y) (h : midState y k status newW = .ok s2) :
+    MidInv s2 (y.jobs.eraseIdx k) ∧ s2.locked = y.s.locked.eraseIdx k ∧
+      s2.lockedOrd = y.s.lockedOrd.eraseIdx k ∧ s2.spawned = y.s.spawned := by
+  have hcore := midState_core hi.core h
+  obtain ⟨job, hjob, _, h2, h3, h4, _, _, _, h7⟩ := midState_spec h
   have hklt : k < y.jobs.length := getElem?_lt_of_some _ _ _ hjob
-  have hlen := hc.len
+  have hlen := hi.len
   have hLk : k < y.s.locked.length := by omega
-  have hentry : y.s.locked[k]? = some y.s.locked[k] := List.getElem?_eq_getElem hLk
-  have he2 : (y.s.locked[k]).2 = job.picked.map (·.pn) := by
-    have := congrArg (fun l => l[k]?) hc.lockedPns
-    simp only [List.getElem?_map, hentry, hjob, Option.map_some, Option.some.injEq] at this
-    exact this
+  have hentry : y.s.locked[k]? = some (jobRec job) := by
+    rw [hi.recd, List.getElem?_map, hjob]; rfl
   have hne : job.picked ≠ [] := by
     intro hnil
-    rcases (hi.jobs job (List.mem_of_getElem? hjob)).shape with hs | hs
+    rcases (hi.shape job (List.mem_of_getElem? hjob)).shape with hs | hs
     · rw [hnil] at hs; simp at hs
     · rw [hnil] at hs; simp at hs
-  have hnd := inflight_pns_nodup hi
-  have hpop : popAll job.picked y.s.locked = y.s.locked.eraseIdx k := by
-    apply popAll_erase job.picked hne y.s.locked k _ hentry he2
+  have hnd := inflight_pns_nodup hi.core
+  have hpop : popAll job.picked (y.s.locked, y.s.lockedOrd)
+      = (y.s.locked.eraseIdx k, y.s.lockedOrd.eraseIdx k) := by
+    apply popAll_erase job.picked hne y.s.locked y.s.lockedOrd k _ hentry rfl
     intro p hp i e' hi' hpn
     have hi2 : (y.jobs.map jobPns)[i]? = some e'.2 := by
-      rw [← hc.lockedPns, List.getElem?_map, hi']; rfl
+      have := hi'
+      rw [hi.recd, List.getElem?_map] at this
+      rw [List.getElem?_map]
+      cases hji : y.jobs[i]? with
+      | none => rw [hji] at this; simp at this
+      | some j =>
+        rw [hji] at this
+        simp only [Option.map_some, Option.some.injEq] at this
+        rw [← this]; rfl
     have hk2 : (y.jobs.map jobPns)[k]? = some (jobPns job) := by
       rw [List.getElem?_map, hjob]; rfl
     exact flatten_nodup_unique _ i k e'.2 (jobPns job) p.pn hnd hi2 hk2 hpn
       (List.mem_map.mpr ⟨p, hp, rfl⟩)
   rw [hpop] at h7
-  refine ⟨h7, ?_, h1, h2, h3, h5⟩
-  rw [h3, h4, h7, List.length_eraseIdx, if_pos hLk, hc.count]
-  omega
+  simp only [Prod.mk.injEq] at h7
+  obtain ⟨hL, hO⟩ := h7
+  have hOk : k < y.s.lockedOrd.length := by rw [hi.ordLen]; exact hklt
+  refine ⟨⟨hcore, ?_, ?_, ?_, ?_, ?_, ?_, ?_⟩, hL, hO, h3⟩
+  · exact fun j hj => hi.shape j (List.mem_of_mem_eraseIdx hj)
+  · rw [hL, hi.recd, map_eraseIdx]
+  · rw [hO, List.length_eraseIdx, if_pos hOk, List.length_eraseIdx, if_pos hklt, hi.ordLen]
+  · intro jo hjo
+    rw [hO, zip_eraseIdx] at hjo
+    rw [h2]
+    exact hi.ordStreams jo (List.mem_of_mem_eraseIdx hjo)
+  · rw [h3, h4, hL, List.length_eraseIdx, if_pos hLk, hi.count]
+    omega
+  · intro o ho
+    rw [hO] at ho
+    rw [h3]
+    exact hi.ordLt o (List.mem_of_mem_eraseIdx ho)
+  · rw [hO]
+    exact hi.ordNodup.sublist (List.eraseIdx_sublist ..)
 
-/-- issuing a job from an exact record (nothing to re-issue) keeps the record exact -/
-theorem prep_count {s s' : St} {prev : Option Nat} {o : PickOutcome} {d : Nat} {job : Job}
-    {ds : List Draw} {jobs : List Job} (h : prep s prev o d = .ok (s', job, ds)) (h0 : s.locked0 = [])
-    (hl : s.locked.map (·.2) = jobs.map jobPns) (hc : s.spawned = s.cstep + s.locked.length) :
-    CountInv { s := s', jobs := jobs ++ [job] } := by
-  obtain ⟨_, es, hlk⟩ := prep_locked h h0
-  have hi := prep_issue h
-  constructor
-  · show s'.locked.map (·.2) = (jobs ++ [job]).map jobPns
-    rw [hlk, List.map_append, List.map_append, hl]
+/-- issuing a job from an exact record (nothing to re-issue) keeps the invariant -/
+theorem prep_inv {s s' : St} {prev : Option Nat} {o : PickOutcome} {d : Nat} {job : Job}
+    {ds : List Draw} {jobs : List Job} (hm : MidInv s jobs)
+    (h : prep s prev o d = .ok (s', job, ds)) : MidInv s' (jobs ++ [job]) := by
+  have h0 := hm.core.l0
+  obtain ⟨hc2, hjob, _, _, _, _, _, _⟩ := prep_spec prev o d job ds hm.core h
+  obtain ⟨hi, hl0, hlk⟩ := prep_fresh h h0
+  rcases hi.kind with ⟨_, _, hsp, _⟩ | ⟨hf, _⟩
+  swap
+  · exact absurd hf (by simp)
+  have hzip : (jobs ++ [job]).zip s'.lockedOrd = jobs.zip s.lockedOrd ++ [(job, s.spawned)] := by
+    rw [hi.lockedOrd, List.zip_append (by rw [hm.ordLen])]
     rfl
-  · show s'.spawned = s'.cstep + s'.locked.length
-    rw [hi.spawned, hi.cstep, hlk, List.length_append, hc]
+  refine ⟨hc2.perm (held_append_perm jobs job), ?_, ?_, ?_, ?_, ?_, ?_, ?_⟩
+  · intro j hj
+    rcases List.mem_append.mp hj with hj | hj
+    · exact hm.shape j hj
+    · simp only [List.mem_singleton] at hj
+      subst hj
+      exact ⟨hjob.shape, hjob.ensGe⟩
+  · rw [hlk, hm.recd, List.map_append]; rfl
+  · rw [hi.lockedOrd, List.length_append, List.length_append, hm.ordLen]; rfl
+  · intro jo hjo
+    rw [hzip] at hjo
+    rw [hi.entropy]
+    rcases List.mem_append.mp hjo with hjo | hjo
+    · exact hm.ordStreams jo hjo
+    · simp only [List.mem_singleton] at hjo
+      subst hjo
+      exact hi.streams
+  · rw [hsp, hi.cstep, hlk, List.length_append, hm.count]
     simp only [List.length_cons, List.length_nil]
     omega
+  · intro o' ho'
+    rw [hi.lockedOrd] at ho'
+    rw [hsp]
+    rcases List.mem_append.mp ho' with ho' | ho'
+    · have := hm.ordLt o' ho'; omega
+    · simp only [List.mem_singleton] at ho'; omega
+  · rw [hi.lockedOrd, List.nodup_append]
+    refine ⟨hm.ordNodup, by simp, ?_⟩
+    intro a ha b hb hab
+    simp only [List.mem_singleton] at hb
+    have := hm.ordLt a ha
+    omega
 
-theorem sysStepJ_count {y y' : Sys} {ev : Ev} {oj : Option (Job × List Draw)} (hi : Inv y)
-    (hc : CountInv y) (h : sysStepJ y ev = .ok (y', oj)) : CountInv y' := by
-  have hl0 := hi.core.l0
+theorem sysStepJ_ninv {y y' : Sys} {ev : Ev} {oj : Option (Job × List Draw)} (hi : NInv y)
+    (h : sysStepJ y ev = .ok (y', oj)) : NInv y' := by
   cases ev with
   | start o saved =>
-    obtain ⟨s1, job, ds, ⟨q, ql⟩, hprep, hjobs, _⟩ := sysStepJ_start h
-    have := prep_count (jobs := y.jobs) hprep (by rw [q.locked0, hl0]) (by rw [ql]; exact hc.lockedPns)
-      (by rw [q.spawned, q.cstep, ql]; exact hc.count)
+    obtain ⟨s1, job, ds, hs1, ⟨q, ql, qo⟩, hprep, hjobs, _, _⟩ := sysStepJ_start h
+    obtain ⟨hce, htn⟩ := initiate_coreEq y.s
+    rw [← hs1] at hce htn
+    have hm1 : MidInv s1 y.jobs := by
+      refine ⟨?_, hi.shape, by rw [ql]; exact hi.recd, by rw [qo]; exact hi.ordLen, ?_, ?_, ?_, ?_⟩
+      · rw [htn]; exact hi.core.congr hce
+      · rw [qo, q.entropy]; exact hi.ordStreams
+      · rw [q.spawned, q.cstep, ql]; exact hi.count
+      · rw [qo, q.spawned]; exact hi.ordLt
+      · rw [qo]; exact hi.ordNodup
+    have := (prep_inv hm1 hprep).ninv
     rw [← hjobs] at this
     exact this
   | initDone =>
-    obtain ⟨⟨q, ql⟩, hjobs, _⟩ := sysStepJ_initDone h
-    constructor
-    · rw [ql, hjobs]; exact hc.lockedPns
-    · rw [q.spawned, q.cstep, ql]; exact hc.count
+    obtain ⟨hs1, ⟨q, ql, qo⟩, hjobs, _⟩ := sysStepJ_initDone h
+    obtain ⟨hce, htn⟩ := initiate_coreEq y.s
+    rw [← hs1] at hce htn
+    refine ⟨?_, by rw [hjobs]; exact hi.shape, by rw [ql, hjobs]; exact hi.recd,
+      by rw [qo, hjobs]; exact hi.ordLen, ?_, ?_, ?_, ?_⟩
+    · rw [htn, hjobs]; exact hi.core.congr hce
+    · rw [qo, q.entropy, hjobs]; exact hi.ordStreams
+    · rw [q.spawned, q.cstep, ql]; exact hi.count
+    · rw [qo, q.spawned]; exact hi.ordLt
+    · rw [qo]; exact hi.ordNodup
   | step k status newW o =>
     obtain ⟨job, s2, hjob, hmid, hrest⟩ := sysStepJ_step h
-    obtain ⟨m1, m2, _, _, _, m6⟩ := midState_count hi hc hmid
-    have hl2 : s2.locked.map (·.2) = (y.jobs.eraseIdx k).map jobPns := by
-      rw [m1, map_eraseIdx, map_eraseIdx, hc.lockedPns]
+    obtain ⟨hm2, _, _, _⟩ := midState_inv hi hmid
     rcases hrest with ⟨job', ds, hprep, hjobs, _⟩ | ⟨hs, hjobs, _⟩
-    · have := prep_count (jobs := y.jobs.eraseIdx k) hprep (by rw [m6, hl0]) hl2 m2
+    · have := (prep_inv hm2 hprep).ninv
       rw [← hjobs] at this
       exact this
-    · constructor
-      · rw [hs, hjobs]; exact hl2
-      · rw [hs]; exact m2
+    · have := hm2.ninv
+      rw [← hs, ← hjobs] at this
+      exact this
 
-/-- the exact record is kept along every history -/
-theorem run_count : ∀ (evs : List Ev) {y y' : Sys}, Inv y → CountInv y → run y evs = .ok y' →
-    Inv y' ∧ CountInv y' := by
+/-- the invariant is kept along every history -/
+theorem run_ninv : ∀ (evs : List Ev) {y y' : Sys}, NInv y → run y evs = .ok y' → NInv y' := by
   intro evs
   induction evs with
   | nil =>
-    intro y y' hi hc h
+    intro y y' hi h
     simp only [run, Except.ok.injEq] at h
     subst h
-    exact ⟨hi, hc⟩
+    exact hi
   | cons ev rest ih =>
-    intro y y' hi hc h
+    intro y y' hi h
     obtain ⟨y1, oj, hj, hr⟩ := run_cons h
-    exact ih (sysStep_preserves ev hi (sysStep_of_J hj)) (sysStepJ_count hi hc hj) hr
+    exact ih (sysStepJ_ninv hi hj) hr
 
 /-- what `load_paths` leaves on a fresh start (`cstep = 0`, nothing recorded) or on a restart without
-    recorded in-flight jobs has an exact record -/
-theorem countInv_of_loadPaths {s0 s : St} {paths : List (Nat × List Rat × List Rat)}
-    (h : loadPaths s0 paths = .ok s) (hl : s0.locked = []) (hc : s0.spawned = s0.cstep) :
-    CountInv { s := s, jobs := [] } := by
-  obtain ⟨q, ql⟩ := loadPaths_quiet h
-  constructor
-  · show s.locked.map (·.2) = [].map jobPns
-    rw [ql, hl]; rfl
-  · show s.spawned = s.cstep + s.locked.length
-    rw [q.spawned, q.cstep, ql, hl, hc]; rfl
+    recorded in-flight jobs satisfies the invariant -/
+theorem ninv_of_init {y : Sys} (hi : Init y) (hl : y.s.locked = []) (ho : y.s.lockedOrd = [])
+    (hc : y.s.spawned = y.s.cstep) : NInv y := by
+  have hj := hi.jobs
+  refine ⟨hi.inv.core, by rw [hj]; intro j h; simp at h, by rw [hl, hj]; rfl, by rw [ho, hj]; rfl,
+    by rw [hj]; intro jo h; simp at h, by rw [hc, hl]; rfl, by rw [ho]; intro o h; simp at h,
+    by rw [ho]; exact List.nodup_nil⟩
 
 end Infretis.Repex
